@@ -161,4 +161,117 @@ theorem signReparsed_general (p : Nat → Bool) (b : Bytes) (rs : List Rec) (sr 
     rw [List.filter_eq_self.mpr hA, List.filter_eq_self.mpr hB]
     simp
 
+/-! ### the parser round trip: `parseStream (recsBytes rs) = rs` for well-formed records -/
+
+/-- a record is well formed when its bytes are `type ‖ length ‖ value` with minimal BigSizes, the value
+    has the announced length, and `typeBytes` are the bytes of the type -/
+def WF (r : Rec) : Prop :=
+  ∃ t k1 len k2, readBigSize r.recordBytes = some (t, k1) ∧
+    readBigSize (r.recordBytes.drop k1) = some (len, k2) ∧
+    r.recordBytes.length = k1 + k2 + len ∧ r.typeBytes = r.recordBytes.take k1
+
+/-- `BigSize::read` only looks at the bytes it consumes -/
+theorem readBigSize_append (b c : Bytes) (v k : Nat) (h : readBigSize b = some (v, k)) :
+    readBigSize (b ++ c) = some (v, k) := by
+  cases b with
+  | nil => simp [readBigSize] at h
+  | cons x r =>
+    rw [List.cons_append]
+    unfold readBigSize at h ⊢
+    split at h
+    · cases h
+    · rename_i r' heq
+      cases heq
+      split at h
+      · cases h
+      · rename_i hlen
+        have hl : ¬ (r ++ c).length < 8 := by simp only [List.length_append]; omega
+        have ht : (r ++ c).take 8 = r.take 8 := List.take_append_of_le_length (by omega)
+        simp only [hl, ht, if_false]
+        exact h
+    · rename_i r' heq
+      cases heq
+      split at h
+      · cases h
+      · rename_i hlen
+        have hl : ¬ (r ++ c).length < 4 := by simp only [List.length_append]; omega
+        have ht : (r ++ c).take 4 = r.take 4 := List.take_append_of_le_length (by omega)
+        simp only [hl, ht, if_false]
+        exact h
+    · rename_i r' heq
+      cases heq
+      split at h
+      · cases h
+      · rename_i hlen
+        have hl : ¬ (r ++ c).length < 2 := by simp only [List.length_append]; omega
+        have ht : (r ++ c).take 2 = r.take 2 := List.take_append_of_le_length (by omega)
+        simp only [hl, ht, if_false]
+        exact h
+    · rename_i n t hFF hFE hFD heq
+      cases heq
+      split
+      · rename_i heq2; cases heq2
+      · rename_i r2 heq2; cases heq2; exact (hFF rfl).elim
+      · rename_i r2 heq2; cases heq2; exact (hFE rfl).elim
+      · rename_i r2 heq2; cases heq2; exact (hFD rfl).elim
+      · rename_i n2 t2 _ _ _ heq2
+        cases heq2
+        exact h
+
+theorem WF.ne_nil {r : Rec} (h : WF r) : r.recordBytes ≠ [] := by
+  obtain ⟨t, k1, len, k2, h1, _, _, _⟩ := h
+  intro hn
+  rw [hn] at h1
+  simp [readBigSize] at h1
+
+/-- one step of `TlvStream::next` on `record ‖ rest` reads exactly the record -/
+theorem splitRecords_cons (fuel : Nat) (r : Rec) (rest : Bytes) (h : WF r) :
+    splitRecords (fuel + 1) (r.recordBytes ++ rest) =
+      match splitRecords fuel rest with
+      | none => none
+      | some rs => some (r :: rs) := by
+  obtain ⟨t, k1, len, k2, h1, h2, hlen, hty⟩ := h
+  have hne : (r.recordBytes ++ rest).isEmpty = false := by
+    cases hb : r.recordBytes with
+    | nil => rw [hb] at h1; simp [readBigSize] at h1
+    | cons a l => simp
+  have hk1 : k1 ≤ r.recordBytes.length := by omega
+  have hd : (r.recordBytes ++ rest).drop k1 = r.recordBytes.drop k1 ++ rest := List.drop_append_of_le_length hk1
+  have e1 := readBigSize_append r.recordBytes rest t k1 h1
+  have e2 : readBigSize ((r.recordBytes ++ rest).drop k1) = some (len, k2) := by
+    rw [hd]; exact readBigSize_append _ rest len k2 h2
+  have hnl : ¬ (r.recordBytes ++ rest).length < k1 + k2 + len := by
+    simp only [List.length_append]; omega
+  have hdt : (r.recordBytes ++ rest).drop (k1 + k2 + len) = rest := by
+    rw [← hlen]; simp
+  have htk : (r.recordBytes ++ rest).take k1 = r.typeBytes := by
+    rw [List.take_append_of_le_length hk1, hty]
+  have htt : (r.recordBytes ++ rest).take (k1 + k2 + len) = r.recordBytes := by
+    rw [← hlen]; simp
+  conv => lhs; unfold splitRecords
+  simp only [hne, Bool.false_eq_true, if_false, e1, e2, hnl, hdt, htk, htt]
+  cases splitRecords fuel rest <;> rfl
+
+/-- THE PARSER ROUND TRIP: the concatenation of well-formed records parses back to those records -/
+theorem splitRecords_recsBytes : ∀ (rs : List Rec) (fuel : Nat), (∀ r ∈ rs, WF r) →
+    (recsBytes rs).length ≤ fuel → splitRecords fuel (recsBytes rs) = some rs := by
+  intro rs
+  induction rs with
+  | nil =>
+    intro fuel _ _
+    cases fuel <;> simp [recsBytes, splitRecords]
+  | cons r t ih =>
+    intro fuel hwf hlen
+    have hr := hwf r (List.mem_cons_self ..)
+    have hpos : 0 < r.recordBytes.length := List.length_pos_iff.mpr hr.ne_nil
+    rw [recsBytes_cons] at hlen ⊢
+    simp only [List.length_append] at hlen
+    cases fuel with
+    | zero => omega
+    | succ f =>
+      rw [splitRecords_cons f r _ hr, ih f (fun x hx => hwf x (List.mem_cons_of_mem _ hx)) (by omega)]
+
+theorem parseStream_recsBytes (rs : List Rec) (h : ∀ r ∈ rs, WF r) : parseStream (recsBytes rs) = some rs :=
+  splitRecords_recsBytes rs _ h (Nat.le_refl _)
+
 end Ldk.OfferMirror
